@@ -85,25 +85,51 @@ def hygiene():
     return bad
 
 
+_GEN_DIR = None
+
+
+def gen_dir():
+    """run-private directory holding the definitions generated from the source
+    under test (logical path SVP.Gen).  Private per process, so that concurrent
+    runs against different trees (VERIF_REPO) can never see each other's
+    translation."""
+    global _GEN_DIR
+    if _GEN_DIR is None:
+        import atexit
+        _GEN_DIR = tempfile.mkdtemp(prefix='svpverif_gen_')
+        atexit.register(lambda: shutil.rmtree(_GEN_DIR, ignore_errors=True))
+        COQFLAGS.extend(['-Q', _GEN_DIR, 'SVP.Gen'])
+        # stale compiled files in coq/Gen would shadow the private ones
+        with Lock():
+            d = os.path.join(COQ, 'Gen')
+            if os.path.isdir(d):
+                for fn in os.listdir(d):
+                    if fn.endswith(('.vo', '.vok', '.vos', '.glob', '.aux', '.v')):
+                        try:
+                            os.remove(os.path.join(d, fn))
+                        except OSError:
+                            pass
+    return _GEN_DIR
+
+
 def regen(groups, log):
-    """re-run the translator on /repo's current source for the given groups
-    and compile the regenerated files.  Returns status per group."""
+    """re-run the translator on the source under test for the given groups
+    and compile the generated files (into the run-private Gen directory).
+    Returns status per group."""
     import py2v_table
-    with Lock():
-        st = py2v_table.generate(os.path.join(COQ, 'Gen'), only=set(groups))
-        for g in groups:
-            v = os.path.join(COQ, 'Gen', g + '.v')
-            vo = v + 'o'
-            if not os.path.exists(vo) or os.path.getmtime(vo) < os.path.getmtime(v):
-                rc, out = sh(['coqc'] + COQFLAGS + [v], timeout=600, cwd=COQ)
-                st[g]['compiled'] = (rc == 0)
-                if rc != 0:
-                    st[g]['compile_error'] = out[-2000:]
-                    log.append('Gen/%s.v failed to compile:\n%s' % (g, out[-2000:]))
-                    if os.path.exists(vo):
-                        os.remove(vo)
-            else:
-                st[g]['compiled'] = True
+    gd = gen_dir()
+    st = py2v_table.generate(gd, only=set(groups))
+
+    def comp(g):
+        v = os.path.join(gd, g + '.v')
+        rc, out = sh(['coqc'] + COQFLAGS + [v], timeout=600, cwd=gd)
+        return g, rc, out
+    with ThreadPoolExecutor(max_workers=NPROC) as ex:
+        for g, rc, out in ex.map(comp, list(groups)):
+            st[g]['compiled'] = (rc == 0)
+            if rc != 0:
+                st[g]['compile_error'] = out[-2000:]
+                log.append('Gen/%s.v failed to compile:\n%s' % (g, out[-2000:]))
     return st
 
 
